@@ -95,6 +95,8 @@ def run(prog, rep, tier='quick'):
                 except PathEnd:
                     fr = None
                 nfreq = fr.n if isinstance(fr, SeqV) else None
+                if nfreq is None and isinstance(fr, Num) and fr.shape is not None and len(fr.shape) == 1:
+                    nfreq = fr.shape[0]          # a list built by a comprehension / an array of the values
                 plen = psd.shape[0] if (psd.shape is not None and len(psd.shape) == 1) else None
                 nf = obj.f.get('_Spectrum__NFFT')
                 want_nfft = kw['NFFT'].a
